@@ -11,8 +11,14 @@ TInit == Init /\ l = 1 /\ div = NoDiv /\ devAll = {} /\ TLCSet(1, 1) /\ TLCSet(2
 Has(ev, f) == f \in DOMAIN ev
 (* JSON arrays standing for sets are compared as sets *)
 Norm(o) == [o EXCEPT !.utxo = Range(@), !.pool = Range(@)]
+FaultAct(ev) ==
+  CASE ev.op = "walk"    -> IF ev.fault < WalkBlockWrites(ev.d, ev.prune) THEN WalkFault(ev.d, ev.prune, ev.fault)
+                            ELSE Walk(ev.d, ev.prune, Range(ev.obs.pool), <<>>)   \* a re-admission write failed: that tx is dropped
+    [] ev.op = "submit"  -> OpFault("submit", "other")
+    [] OTHER             -> OpFault(ev.op, "fail")
 Act(ev) ==
-  CASE ev.op = "reset"   -> Reset
+  CASE Has(ev, "fault")  -> FaultAct(ev)
+    [] ev.op = "reset"   -> Reset
     [] ev.op = "submit"  -> Submit(ev.t)
     [] ev.op = "mkblock" -> MkAnyBlock(ev.p, ev.txs)
     [] ev.op = "play"    -> Play(ev.b, ev.res)
